@@ -35,9 +35,18 @@ type C14Job struct {
 	Q      c14Query
 	Muts   int
 	Clock0 int64
+	// Extra: that many more pending promises n000, n001, ... (the largest page sizes)
+	Extra int
+	// DefaultLimit: the request carries no limit (the API's default page size, Q.limit, applies)
+	DefaultLimit bool
 }
 
-func (j *C14Job) Name() string { return "C14/" + j.Q.String() }
+func (j *C14Job) Name() string {
+	if j.Extra > 0 {
+		return fmt.Sprintf("C14/population+%d/default-limit=%v/%s", j.Extra, j.DefaultLimit, j.Q.String())
+	}
+	return "C14/" + j.Q.String()
+}
 
 func globRe(pat string) *regexp.Regexp {
 	parts := strings.Split(pat, "*")
@@ -141,6 +150,14 @@ func c14Mutations(sched bool) []c14Mut {
 				r.CreateSchedule.Tags = map[string]string{"x": "1"}
 				w.Do(7, n, r)
 			}},
+			// the newest schedules go away and one of them comes back (a traversal that has
+			// already returned it must not meet it again further down)
+			{"delete(b/a)", func(w *world.World, n int) { w.Do(7, n, DeleteS("b/a").F()) }},
+			{"create(ba) again", func(w *world.World, n int) {
+				r := CreateS("ba", "0 0 1 1 *", "x.{{.timestamp}}", 10, "", nil).F()
+				r.CreateSchedule.Tags = map[string]string{"x": "1"}
+				w.Do(7, n, r)
+			}},
 		}
 	}
 	return []c14Mut{
@@ -178,6 +195,9 @@ func (j *C14Job) runOnce(ch *vx.Chooser, img **world.Image, imgClock *int64) (vi
 	if *img == nil {
 		w.Clock = j.Clock0
 		c14Setup(w)
+		for i := 0; i < j.Extra; i++ {
+			w.Do(9, 100+i, CreateP(fmt.Sprintf("n%03d", i), "", false, 1000, nil, "d").F())
+		}
 		*img, *imgClock = &world.Image{Bytes: w.Snapshot()}, w.Clock
 	} else {
 		w.Clock = *imgClock
@@ -215,7 +235,11 @@ func (j *C14Job) runOnce(ch *vx.Chooser, img **world.Image, imgClock *int64) (vi
 			}
 			req = &t_api.Request{Kind: t_api.SearchSchedules, SearchSchedules: sr}
 		} else {
-			sr, e := helper.SearchPromises(j.Q.pat, j.Q.state, j.Q.tags, j.Q.limit, token)
+			lim := j.Q.limit
+			if j.DefaultLimit {
+				lim = 0
+			}
+			sr, e := helper.SearchPromises(j.Q.pat, j.Q.state, j.Q.tags, lim, token)
 			if e != nil {
 				w.Violate("C14:helper-rejects-own-cursor", "SearchPromises helper rejected %q / cursor: %v", j.Q, e)
 				return
@@ -242,8 +266,9 @@ func (j *C14Job) runOnce(ch *vx.Chooser, img **world.Image, imgClock *int64) (vi
 				M[k] = v
 			}
 		}
-		for k := range M {
-			if _, ok := now[k]; !ok {
+		for k, sid := range M {
+			// the same incarnation: an item deleted and created again under its id is a new item
+			if v, ok := now[k]; !ok || v != sid {
 				delete(M, k)
 			}
 		}
@@ -408,10 +433,20 @@ func c14Jobs(tier string) []runner.Job {
 		}
 		for _, tg := range tagsets[:3] {
 			for _, lim := range limits {
-				jobs = append(jobs, &C14Job{Q: c14Query{pat: pat, tags: tg, limit: lim, sched: true}, Muts: tierInt(tier, 2, 3), Clock0: 0})
+				muts := tierInt(tier, 2, 3)
+				if lim == 1 && tg == nil {
+					muts = 3 // delete the two newest, re-create one of them
+				}
+				jobs = append(jobs, &C14Job{Q: c14Query{pat: pat, tags: tg, limit: lim, sched: true}, Muts: muts, Clock0: 0})
 			}
 		}
 	}
+	// the largest page sizes: 101 matching promises, page size 99, 100 and the default
+	jobs = append(jobs,
+		&C14Job{Q: c14Query{pat: "n*", limit: 99}, Extra: 101},
+		&C14Job{Q: c14Query{pat: "n*", limit: 100}, Extra: 101},
+		&C14Job{Q: c14Query{pat: "n*", limit: 100}, Extra: 101, DefaultLimit: true},
+		&C14Job{Q: c14Query{pat: "n*", state: "pending", limit: 100}, Extra: 100})
 	return jobs
 }
 
@@ -420,7 +455,7 @@ func init() {
 		return &runner.Spec{
 			Property: "C14", Engine: "kexplore", Level: "model_checking",
 			Jobs: c14Jobs,
-			Rule:   "population of 5 promises (ids a, ab, abc, b/a, ba; all five states incl. one that becomes overdue; tags x=1 / y=2 subsets) and 4 schedules; every query {*, a*, *a, *b*, exact} x state filter {none, pending, resolved, rejected} x tag subset x page size {1,2,3,100}; complete cursor traversals through the real api helper and cursor codec with <=3 (4 thorough) mutations {create matching/non-matching, complete, clock past a timeout, time-out sweep, delete schedule} placed before any page; oracle: always-matching subset of returned subset of sometime-matching, no id twice, strictly newest-first, page <= limit, cursor iff full page, overdue never pending, forged cursor refused; distinct = distinct (returned set, order) per query",
+			Rule:   "population of 5 promises (ids a, ab, abc, b/a, ba; all five states incl. one that becomes overdue; tags x=1 / y=2 subsets) and 4 schedules; every query {*, a*, *a, *b*, exact} x state filter {none, pending, resolved, rejected} x tag subset x page size {1,2,3,100}, plus 101 further promises traversed with page size 99, 100 and the default; complete cursor traversals through the real api helper and cursor codec with <=3 (4 thorough) mutations {create matching/non-matching, complete, clock past a timeout, time-out sweep, delete schedule} placed before any page; oracle: always-matching subset of returned subset of sometime-matching, no id twice, strictly newest-first, page <= limit, cursor iff full page, overdue never pending, forged cursor refused; distinct = distinct (returned set, order) per query",
 			Assume: append([]string{"'matches the id pattern' = glob with * on lowercase ids without LIKE metacharacters (the property does not define matching beyond that)"}, engineAAssume...),
 			QuickS: 120, ThoroughS: 1200,
 		}
